@@ -35,6 +35,8 @@ fn engine(id: &str, tier: &str, replay: Option<&serde_json::Value>) -> Option<gv
         ("C20", Some(v)) => c20::replay(v),
         ("C15", None) => c15::run(tier),
         ("C15", Some(v)) => c15::replay(v),
+        ("C14", None) => c14::run(tier),
+        ("C14", Some(v)) => c14::replay(v),
         ("C13", None) => c13::run(tier),
         ("C13", Some(v)) => c13::replay(v),
         ("C05", None) => c05::run(tier),
@@ -75,6 +77,7 @@ fn main() {
         match args.get(2).map(|s| s.as_str()) {
             Some("c05") => gv::isolate::worker_loop(gv::engines::c05::worker),
             Some("c13") => gv::isolate::worker_loop(gv::engines::c13::worker),
+            Some("c14") => gv::isolate::worker_loop(gv::engines::c14::worker),
             Some("c03") => gv::isolate::worker_loop(gv::engines::c03::worker),
             Some("c06") => gv::engines::c06::worker_main(),
             Some("c10") => gv::isolate::worker_loop(gv::engines::c10::worker),
